@@ -197,6 +197,24 @@ def t_same(a, b):
     return t_canon(a) == t_canon(b)
 
 
+def _named(t):
+    """`t_canon` with an extension type and its opaque form identified (by extension, name and arguments)."""
+    if isinstance(t, list):
+        if t and t[0] == "@ext":
+            return ["@named", t[1][1], t[1][2], [_named(a) for a in t[2]]]
+        if t and t[0] == "@opaque":
+            return ["@named", t[4], t[1], [_named(a) for a in t[3]]]
+        return [_named(x) for x in t]
+    return t
+
+
+def t_same_modulo_form(a, b):
+    """The two types differ at most in the FORM of an extension type (definition-backed vs opaque): the wire format
+    knows only the opaque form, so such a pair is one type for the specification (given consistent bounds) while the
+    Python objects compare unequal — neither 'well-formed' nor 'ill-formed' is claimed for it."""
+    return _named(t_canon(a)) == _named(t_canon(b))
+
+
 def t_variant(t, tag):
     if isinstance(t, list) and t[0] == "@unit":
         return [] if 0 <= tag < t[1] else None
@@ -283,6 +301,14 @@ def children(e):
     return []
 
 
+def all_wf(xs):
+    """three-valued conjunction: False dominates, then None (undetermined)"""
+    xs = list(xs)
+    if any(x is False for x in xs):
+        return False
+    return None if any(x is None for x in xs) else True
+
+
 def ref_wf(e):
     """Well-formed arguments, recursively (the hypothesis of the claim): general sums have their tag
     in range and fields of the tagged row's types; helper fields are well-formed; UnitSum tag < size;
@@ -296,10 +322,12 @@ def ref_wf(e):
         if row is None or len(row) != len(e[3]):
             return False
         if not all(t_same(ref_type(x), t) for x, t in zip(e[3], row)):
+            if all(t_same_modulo_form(ref_type(x), t) for x, t in zip(e[3], row)):
+                return None  # undetermined (see t_same_modulo_form): no claim either way
             return False
-        return all(ref_wf(x) for x in e[3])
+        return all_wf(ref_wf(x) for x in e[3])
     if k in ("@vtuple", "@some", "@left", "@right"):
-        return all(ref_wf(x) for x in children(e))
+        return all_wf(ref_wf(x) for x in children(e))
     if k == "@unitsum":
         return e[1] < e[2]
     if k == "@vext":
@@ -972,9 +1000,9 @@ def _check_node(e, fails):
     # (1) the reported type is the type the serialised form inhabits  <=>  the arguments are well-formed
     wf = ref_wf(e)
     inh = j_inhabits(j, tj)
-    if wf and not inh:
+    if wf is True and not inh:
         fails.append(Failure(site, "reported-type-not-inhabited", f"type {json.dumps(tj)[:200]}"))
-    if not wf and inh and k == "@vsum":
+    if wf is False and inh and k == "@vsum":
         fails.append(Failure(site, "ill-formed-arguments-accepted", ""))
     # (2) helpers build the corresponding sum type with the right tag
     if k in ("@vtuple", "@some", "@none", "@left", "@right", "@unitsum", "@bool", "@unit"):
@@ -1089,7 +1117,7 @@ def _oracle_load(e, prev=None):
         doc = _dump(h._to_serial())
         cj = next(n for n in doc["nodes"] if n["op"] == "Const")
         lj = next(n for n in doc["nodes"] if n["op"] == "LoadConstant")
-        if not j_inhabits(cj["v"], lj["datatype"]) and ref_wf(e):
+        if not j_inhabits(cj["v"], lj["datatype"]) and ref_wf(e) is True:
             fails.append(Failure("DfBase.load", "serialised-constant-does-not-inhabit-loaded-type", ""))
     except StopIteration:
         fails.append(Failure("DfBase.load", "serialised-nodes-missing", ""))
@@ -1145,7 +1173,7 @@ def stats(spec, obs, counters):
 
 
 def ref_wf_all(e):
-    return all(ref_wf(x) for _, x in _subexprs(e))
+    return all_wf(ref_wf(x) for _, x in _subexprs(e)) is True
 
 
 def shrink(spec, pred):
